@@ -724,6 +724,17 @@ func genC10(p *Plan, tier string) {
 			if r.Bool(0.5) {
 				sib["biasApplyRandomSeed"] = float64(r.Range(0, 1000))
 			}
+			if r.Bool(0.25) {
+				// a sibling that fails late - while its alternatives are evaluated, inside the same
+				// component the others are in - rather than at the door: one alternative carries a
+				// value for a criterion nobody declared (some methods ignore that: then it is just
+				// another valid sibling)
+				if ka := jarr(sib["knownAlternatives"]); len(ka) > 0 {
+					if m := jmap(jmap(ka[r.Intn(len(ka))])["criteria"]); m != nil {
+						m["undeclared"] = float64(r.Range(0, 5))
+					}
+				}
+			}
 			items = append(items, item{body: JSONBytes(sib)})
 			continue
 		}
